@@ -68,19 +68,27 @@ package ice
 //@   ensures empty-means-all-else-as-configured: effectiveNetworkTypes(networkTypes, result)
 
 // Every gatherer that iterates network types is started with the effective set.
-//@ func (*Agent).gatherCandidatesInternal$1
+// (closure 1 of gatherCandidatesInternal is the loop task that takes the URL list, see C10)
+//@ func (*Agent).gatherCandidatesInternal$2
 //@   props C18
 //@   site call gatherCandidatesLocal#1 assert host-gatherer-gets-the-effective-network-types: arg1 == ctx && effectiveNetworkTypes(a.networkTypes, arg2)
 
 //@ func (*Agent).gatherServerReflexiveCandidates$1
-//@   props C18
+//@   props C18 C10
 //@   site call gatherCandidatesSrflxUDPMux#1 assert srflx-mux-gatherer-gets-the-effective-network-types: arg1 == ctx && effectiveNetworkTypes(a.networkTypes, arg3)
 //@   site call gatherCandidatesSrflx#1 assert srflx-gatherer-gets-the-effective-network-types: arg1 == ctx && effectiveNetworkTypes(a.networkTypes, arg3)
+//@   site call gatherCandidatesSrflxUDPMux#1 assert C10 works-on-the-url-list-taken-on-the-loop: arg2 == urls
+//@   site call gatherCandidatesSrflx#1 assert C10 works-on-the-url-list-taken-on-the-loop: arg2 == urls
 
 //@ func (*Agent).gatherServerReflexiveCandidates$2
 //@   props C18
 //@   site call gatherCandidatesSrflxMapped#1 assert mapped-srflx-gatherer-gets-the-effective-network-types: arg1 == ctx && effectiveNetworkTypes(a.networkTypes, arg2)
 
+// The STUN/TURN URL list can be replaced at run time (UpdateOptions) on the agent loop: a gathering takes it
+// once, on the loop, and hands that list to its gatherers (repair of the former known finding, CF-44).
+//@ func (*Agent).gatherCandidatesInternal$3
+//@   props C10
+//@   site call gatherCandidatesRelay#1 assert C10 works-on-the-url-list-taken-on-the-loop: arg2 == urls
 //@ enumerate C18 calls ice.(*Agent).gatherCandidatesLocal in (*Agent).gatherCandidatesInternal
 //@ enumerate C18 calls ice.(*Agent).gatherCandidatesSrflx in (*Agent).gatherServerReflexiveCandidates
 //@ enumerate C18 calls ice.(*Agent).gatherCandidatesSrflxUDPMux in (*Agent).gatherServerReflexiveCandidates
